@@ -179,6 +179,16 @@ CHECKS = {
         note="Caller params/cookies are dicts (as generated clients pass them); names/values from token-safe alphabets; a caller name equal to an API-key name is never generated (the property does not say who wins); httpx encoding trusted.",
         design="§5 C17",
     ),
+    "C19": dict(
+        category="exploration",
+        technique="metamorphic: every constructed document is generated as JSON, YAML block, YAML flow, YAML with unquoted integer status keys and fully quoted YAML (identical file hashes required) and with all mapping keys shuffled / components.schemas, paths, methods and properties permuted (equal normalised package manifest computed from the ASTs of the emitted files: models->fields/annotations/defaults/wire keys, enums->members, aliases->targets, clients->method signatures; union members sorted)",
+        text="480 documents x 7 generations per quick run. Style-only re-renderings must be byte-identical; reorderings may only change "
+             "the order of declarations. 3 open findings (primary request content type, numbering of anonymous array item models, "
+             "primary response of operations without 2xx all depend on key order) are excluded by construction; the integer-status-key "
+             "defect found here was repaired under C07.",
+        note="Documents with reference cycles or colliding/derivation-sensitive names are outside the domain (C02-F01, C20); permutations are a pure function of the case's perm_seed; 2 permutations per document.",
+        design="§5 C19",
+    ),
     "C20": dict(
         category="exploration",
         technique="exhaustive enumeration of all strings of length <=4 over an 18-character alphabet through every name-derivation function with a call site, plus Hypothesis Unicode text and keyword spellings; validity predicate oracle (non-empty, isidentifier, not keyword); namespace collision cases through generate_client + import",
